@@ -61,12 +61,13 @@ def run(prog, rep, tier, repo):
         fa, a, b = [('arg', i, f.names.get(i)) for i in (1, 2, 3)]
         rets = f.return_values()
         problems = []
+        undec = []
         half = ('const', 'f64', 0.5)
         xm = ('bin', 'Mul', half, ('bin', 'Add', b, a, 'f64'), 'f64')
         xm2 = ('bin', 'Mul', half, ('bin', 'Add', a, b, 'f64'), 'f64')
         xr = ('bin', 'Mul', half, ('bin', 'Sub', b, a, 'f64'), 'f64')
         if len(rets) != 1 or not (tag(rets[0]) == 'bin' and rets[0][1] == 'Mul'):
-            problems.append('result is not sum * xr')
+            undec.append('result is not of the form sum * xr')
         else:
             s, scale = rets[0][2], rets[0][3]
             if scale != xr:
@@ -74,14 +75,16 @@ def run(prog, rep, tier, repo):
             if scale != xr:
                 problems.append('the sum is not scaled by the half-length 0.5*(b-a)')
             if not (tag(s) == 'call' and short(s[1]) == 'sum' and tag(s[2][0]) == 'call' and short(s[2][0][1]) == 'map'):
-                problems.append('not a sum over a mapped range')
+                undec.append('not a sum over a mapped range')
             else:
                 it, cl = s[2][0][2]
                 npairs = len(N) if N else 5
-                if it != ('range', ('const', 'usize', 0), ('const', 'usize', npairs)):
+                if tag(it) == 'range' and it != ('range', ('const', 'usize', 0), ('const', 'usize', npairs)):
                     problems.append('range is %s, expected 0..%d (the table length)' % (show(it), npairs))
+                elif tag(it) != 'range':
+                    undec.append('the sum does not run over an index range (%s)' % show(it)[:40])
                 if tag(cl) != 'agg':
-                    problems.append('closure not found')
+                    undec.append('closure not found')
                 else:
                     g = prog.func(cl[2])
                     rep.touch(cl[2])
@@ -92,10 +95,14 @@ def run(prog, rep, tier, repo):
                     def up(t):
                         return ups.get(t[1]) if tag(t) == 'upvar' else None
                     ok = False
+                    skeleton = False
                     if len(rv) == 1 and tag(rv[0]) == 'bin' and rv[0][1] == 'Mul':
                         w, pair = rv[0][2], rv[0][3]
                         if not (tag(w) == 'index' and _const_item(w[1]) == IF + 'GAUSS_QUAD_WEIGHTS'):
                             w, pair = pair, w
+                        # skeleton W[.] * (f(.) +/- f(.)): inside it, indices and signs are decided; outside it the idiom is not read
+                        skeleton = tag(w) == 'index' and tag(pair) == 'bin' and pair[1] in ('Add', 'Sub') and \
+                            all(tag(c) == 'call' and short(c[1]) == 'call' for c in (pair[2], pair[3]))
                         if tag(w) == 'index' and _const_item(w[1]) == IF + 'GAUSS_QUAD_WEIGHTS' and w[2] == i and tag(pair) == 'bin' and pair[1] == 'Add':
                             nodes = []
                             for c in (pair[2], pair[3]):
@@ -113,10 +120,16 @@ def run(prog, rep, tier, repo):
                                             if okd:
                                                 signs.add(nd[1])
                                 ok = signs == {'Add', 'Sub'}
-                    if not ok:
+                    if not ok and skeleton:
                         problems.append('summand is not W[i] * (f(xm + xr*N[i]) + f(xm - xr*N[i])) with one common i: %s' % [show(r)[:160] for r in rv])
-        (rep.viol if problems else rep.ok)('gauss-shape', key, '; '.join(problems) if problems else
-                                           'quad5 = xr * sum_{i<5} W[i] (f(xm + xr N[i]) + f(xm - xr N[i])), xm = (a+b)/2, xr = (b-a)/2', site_of(f.body))
+                    elif not ok:
+                        undec.append('summand not of the form W[i] * (f(..) + f(..))')
+        if problems:
+            rep.viol('gauss-shape', key, '; '.join(problems), site_of(f.body))
+        elif undec:
+            rep.undecided('gauss-shape', key, 'idiom not read by this rule: ' + '; '.join(undec), site_of(f.body), proof=False)
+        else:
+            rep.ok('gauss-shape', key, 'quad5 = xr * sum_{i<5} W[i] (f(xm + xr N[i]) + f(xm - xr N[i])), xm = (a+b)/2, xr = (b-a)/2')
     rep.floor('gauss-shape', 1, 'quad5')
 
     # ------------------------------------------------------------------ D2 trapz
@@ -130,8 +143,9 @@ def run(prog, rep, tier, repo):
         dx = ('bin', 'Div', ('bin', 'Sub', b, a, 'f64'), ('cast', 'IntToFloat', n, 'f64', 'usize'), 'f64')
         rets = f.return_values()
         problems = []
+        undec = []
         if len(rets) != 1 or not (tag(rets[0]) == 'bin' and rets[0][1] == 'Mul' and dx in (rets[0][2], rets[0][3])):
-            problems.append('result is not dx * (...) with dx = (b - a)/n')
+            undec.append('result is not of the form dx * (...) with dx = (b - a)/n')
         else:
             inner = rets[0][3] if rets[0][2] == dx else rets[0][2]
             parts = _flatten_add(inner)
@@ -142,7 +156,7 @@ def run(prog, rep, tier, repo):
                 if tag(p) == 'call' and short(p[1]) == 'sum' and tag(p[2][0]) == 'call' and short(p[2][0][1]) == 'map':
                     it, cl = p[2][0][2]
                     if tag(it) != 'range':
-                        problems.append('interior sum is not over a range')
+                        undec.append('interior sum is not over a range')
                         continue
                     total = padd(total, psub(poly(it[2]), poly(it[1])))
                     lo = pconst(poly(it[1]))
@@ -151,20 +165,36 @@ def run(prog, rep, tier, repo):
                                         'enters with weight 1/2)' % show(it))
                     g = prog.func(cl[2]) if tag(cl) == 'agg' else None
                     if g is None:
-                        problems.append('closure not found')
+                        undec.append('closure not found')
                         continue
                     rep.touch(cl[2])
                     ups = {i: u for i, u in enumerate(cl[3])}
                     rv = g.return_values()
                     k = ('arg', 2, g.names.get(2))
                     okn = False
+                    recognised = False
                     if len(rv) == 1 and tag(rv[0]) == 'call' and short(rv[0][1]) == 'call':
                         nd = rv[0][2][1][3][0] if tag(rv[0][2][1]) == 'agg' else None
-                        if tag(nd) == 'bin' and nd[1] == 'Add' and tag(nd[2]) == 'upvar' and ups.get(nd[2][1]) == a and tag(nd[3]) == 'bin' and nd[3][1] == 'Mul':
+                        ups2 = ups
+                        # node computed by a captured helper closure `node(k)`: inline it (its captures come from the outer frame)
+                        if tag(nd) == 'call' and short(nd[1]) == 'call' and tag(nd[2][0]) == 'upvar' and tag(ups.get(nd[2][0][1])) == 'agg' and ups.get(nd[2][0][1])[1] == 'closure':
+                            hc = ups.get(nd[2][0][1])
+                            h = prog.func(hc[2])
+                            hargs = nd[2][1][3] if tag(nd[2][1]) == 'agg' else ()
+                            if h is not None and len(h.return_values()) == 1 and len(hargs) == 1 and hargs[0] == k:
+                                rep.touch(hc[2])
+                                nd = h.return_values()[0]
+                                ups2 = {i_: u for i_, u in enumerate(hc[3])}
+                                k = ('arg', 2, h.names.get(2))
+                        if tag(nd) == 'bin' and nd[1] == 'Add' and tag(nd[3]) == 'bin' and nd[3][1] == 'Mul':
+                            recognised = True
                             fs = [nd[3][2], nd[3][3]]
-                            okn = any(tag(x) == 'cast' and x[2] == k for x in fs) and any(tag(x) == 'upvar' and ups.get(x[1]) == dx for x in fs)
-                    if not okn:
+                            okn = tag(nd[2]) == 'upvar' and ups2.get(nd[2][1]) == a and any(tag(x) == 'cast' and x[2] == k for x in fs) and \
+                                any(tag(x) == 'upvar' and ups2.get(x[1]) == dx for x in fs)
+                    if not okn and recognised:
                         problems.append('interior node is not a + k*dx')
+                    elif not okn:
+                        undec.append('interior node expression not read')
                 elif tag(p) == 'bin' and p[1] == 'Div' and tag(p[3]) == 'const' and p[3][2] == 2.0:
                     for e in _flatten_add(p[2]):
                         if tag(e) == 'call' and short(e[1]) == 'call' and e[2][0] == fa and tag(e[2][1]) == 'agg':
@@ -172,14 +202,22 @@ def run(prog, rep, tier, repo):
                             total = padd(total, {(): Fraction(1, 2)})
                         else:
                             problems.append('unexpected end-point term %s' % show(e)[:60])
+                elif tag(p) == 'call' and short(p[1]) == 'call' and p[2][0] == fa and tag(p[2][1]) == 'agg':
+                    # an end-point value entering with full weight
+                    ends.add(p[2][1][3][0])
+                    total = padd(total, {(): Fraction(1)})
                 else:
-                    problems.append('unexpected term %s' % show(p)[:80])
-            if ends != {a, b}:
+                    undec.append('term %s not read' % show(p)[:80])
+            if ends != {a, b} and not undec:
                 problems.append('end-point terms are %s, expected f(a) and f(b) each with weight 1/2' % sorted(show(e) for e in ends))
-            if not peq(total, poly(n)) and not problems:
+            if not peq(total, poly(n)) and not problems and not undec:
                 problems.append('total weight is (%s)*dx, not n*dx = b - a: the rule is not exact for constants' % total)
-        (rep.viol if problems else rep.ok)('trapezoid-weights', key, '; '.join(problems) if problems else
-                                           'dx*(sum_{k=1}^{n-1} f(a+k dx) + (f(a)+f(b))/2): total weight n*dx = b - a', site_of(f.body))
+        if problems:
+            rep.viol('trapezoid-weights', key, '; '.join(problems), site_of(f.body))
+        elif undec:
+            rep.undecided('trapezoid-weights', key, 'idiom not read by this rule: ' + '; '.join(undec), site_of(f.body), proof=False)
+        else:
+            rep.ok('trapezoid-weights', key, 'dx*(sum_{k=1}^{n-1} f(a+k dx) + (f(a)+f(b))/2): total weight n*dx = b - a')
     rep.floor('trapezoid-weights', 1, 'trapz')
 
     # ------------------------------------------------------------------ D3 sampled trapezoid
